@@ -67,8 +67,12 @@ def replay_case(bins, case, pid, tag):
     outs = {}
     repro = False
     for prof, b in bins.items():
-        r = subprocess.run([b, path], stdout=subprocess.PIPE, stderr=subprocess.STDOUT, text=True,
-                           timeout=600)
+        try:
+            r = subprocess.run([b, path], stdout=subprocess.PIPE, stderr=subprocess.STDOUT, text=True,
+                               timeout=600)
+        except subprocess.TimeoutExpired:
+            outs[prof] = (None, "replay timed out after 600 s")
+            return None, path, outs
         outs[prof] = (r.returncode, r.stdout.strip()[-400:])
         if r.returncode == 1:
             repro = True
@@ -197,8 +201,12 @@ def write_evidence(pid, tier, seed, spec, results, violations, known_hits, incon
     discharged = [r for r in results if r[1] == "pass"]
     obl_rows = []
     solver_s = 0.0
+    def is_concrete(o):
+        return o["name"].startswith("native::") or o["name"] in ("mir::recover-vectors", "c07::vectors-vs-bigint-model", "c07::translator-validation")
     for o, st, why, info in results:
-        row = {"name": o["name"], "engine": o["engine"], "status": st, "claim": o.get("claim", ""),
+        eng = "native concrete cross-check (replay binary; not a solver query)" if is_concrete(o) else (
+            "Engine M: MIR -> SMT (z3 + cvc5)" if o["engine"] == "mirsmt" else "Engine K: Kani / CBMC / CaDiCaL")
+        row = {"name": o["name"], "engine": eng, "decided_by_solver": not is_concrete(o), "status": st, "claim": o.get("claim", ""),
                "bounds": o.get("bounds", ""), "wall_s": info.get("wall_s")}
         if info.get("verif_time") is not None:
             row["solver_s"] = info["verif_time"]
@@ -219,13 +227,19 @@ def write_evidence(pid, tier, seed, spec, results, violations, known_hits, incon
     stubs = sorted({s for o, *_ in results for s in o.get("stubs", [])})
     samples = [{"obligation": o["name"], "claim": o.get("claim", ""), "bounds": o.get("bounds", ""),
                 "status": st} for o, st, _, _ in results[:6]]
-    nontrivial = sum(1 for o, st, _, info in results if st == "pass" and (info.get("covers") or info.get("queries")))
+    nontrivial = sum(1 for o, st, _, info in results if st == "pass" and not is_concrete(o) and (info.get("covers") or info.get("queries")))
+    solver_q = sum(int(info.get("queries") or 1) for o, _, _, info in results if not is_concrete(o))
+    concrete_n = sum(int(info.get("queries") or 1) for o, _, _, info in results if is_concrete(o))
     cov = {
         "obligations": len(results),
         "discharged": len(discharged),
-        "evaluations": sum(int(info.get("queries") or 1) for _, _, _, info in results),
+        "evaluations": solver_q,
+        "solver_queries": solver_q,
+        "concrete_cross_check_cases": concrete_n,
+        "solver_obligations": sum(1 for o, *_ in results if not is_concrete(o)),
+        "concrete_cross_check_obligations": sum(1 for o, *_ in results if is_concrete(o)),
         "distinct_nontrivial": nontrivial,
-        "rule": "one obligation = one solver query family (a Kani harness decided by CBMC+CaDiCaL over the compiled code, or SMT queries on the MIR encoding); counted non-trivial only if discharged AND its reachability/vacuity witnesses were satisfied",
+        "rule": "one obligation = one solver query family (a Kani harness decided by CBMC+CaDiCaL over the compiled code, or SMT queries on the MIR encoding); counted non-trivial only if it is a solver obligation, discharged, AND its reachability/vacuity witnesses were satisfied; concrete cross-checks are counted separately and are never the deciding step",
         "samples": samples,
         "checker_cmd": "python3 /verif/run.py %s %s" % (tier, pid),
         "trusted_base": spec.get("trusted_base", []),
@@ -255,4 +269,12 @@ def write_evidence(pid, tier, seed, spec, results, violations, known_hits, incon
 
 
 if __name__ == "__main__":
-    main()
+    try:
+        main()
+    except SystemExit:
+        raise
+    except BaseException as e:  # noqa: an infrastructure failure is never a verdict
+        import traceback
+        traceback.print_exc()
+        print("INCONCLUSIVE: the checker itself failed (%s: %s); no verdict" % (type(e).__name__, e))
+        sys.exit(2)
